@@ -449,6 +449,54 @@ def random_run(rm, cfg, rng, nevents, settle=True, weights=None):
   return run.trace()
 
 
+def full_then_removed_run(rm, cfg, victim=1, drain_first=True):
+  """Adaptive: destination `victim` sits behind a paused transport until its queue reports itself full (the others keep
+  sending); optionally one batch is sent; its connection is lost and every retry fails until the dynamic router removes
+  it; everything else settles.  Returns (trace, script) - the script replays with scripted_run."""
+  run = RelayRun(rm, cfg)
+  run.build()
+  script = []
+
+  def fire(n, a):
+    script.append((n, a))
+    run.fire(n, a)
+
+  def P():
+    return run.ev[-1]['p']
+  try:
+    nd = cfg['nd']
+    for c in range(1, cfg.get('nr', 1) + 1):
+      fire('RConnect', c)
+    for d in range(1, nd + 1):
+      fire('ConnMade', d)
+    fire('TPause', victim)
+    n = 0
+    while not P()['fullCalled'][victim - 1] and n < 40 * cfg['maxq']:
+      fire('Arrive', 0)
+      n += 1
+      for d in range(1, nd + 1):
+        while d != victim and P()['st'][d - 1]:
+          fire('SendTimer', d)
+    if drain_first:
+      fire('TResume', victim)
+    fire('ConnLost', victim)
+    k = 0
+    while P()['has'][victim - 1] and k < 20:
+      fire('RetryTimer', victim)
+      fire('ConnFailed', victim)
+      k += 1
+    # everything but the victim's retries settles
+    for _ in range(400):
+      p = P()
+      todo = [('SendTimer', d) for d in range(1, nd + 1) if p['st'][d - 1]]
+      if not todo:
+        break
+      fire(*todo[0])
+  finally:
+    run.teardown()
+  return run.trace(), script
+
+
 def scripted_run(rm, cfg, events, settle=False, max_settle=200):
   """events: list of (name, arg); events not enabled on the code are reported."""
   run = RelayRun(rm, cfg)
